@@ -37,6 +37,40 @@ CHECKS = {
              'rendering.',
         technique='CBMC code contracts with loop contracts (unbounded safety) + bounded unwinding of the same extracted text against set-semantics postconditions',
     ),
+    'C09': dict(
+        category='proof',
+        text='Slice: constant::operator< and the five operators derived from it, lowered per run from /repo/libzwerg/constant.cc '
+             '(lambda inlined, virtual safe_arith/most_enclosing as uninterpreted functions, mpz operator< by its C08 contract). '
+             'Over three fully symbolic constants (all values, both representations, any of 4 domain objects or none) CBMC '
+             'discharges: irreflexive, asymmetric, transitive, equality transitive, exactly one of < == > holds, every derived '
+             'operator agrees with <, arithmetic domains compare by value, unrelated domains never equal. Loop-free, so complete.',
+        design_ref='DESIGN.md section 4 C09',
+        note='Trusted: cxx2c lowering; uninterpreted-function abstraction of the virtual domain methods plus two stated '
+             'assumptions about them (MODEL_OK); domain addresses modelled as elements of one array. Not covered: cmp of strings, '
+             'sequences, DIEs, address sets; comparison_result; compare_stack.',
+        technique='CBMC code contracts + order-axiom lemmas on C lowered from the real C++ per run',
+    ),
+    'C13': dict(
+        category='proof',
+        text='Slice: the layout arithmetic that places every operator state in the shared state area (layout::reserve, align, '
+             'size). Contract: for power-of-two alignment the location is aligned, lies beyond everything reserved before with '
+             'less than one alignment of padding, and the area grows to exactly location+size; client lemma from the contract '
+             'alone: two successive reservations are disjoint. All sizes/alignments, loop-free.',
+        design_ref='DESIGN.md section 4 C13',
+        note='SLICE ONLY: construct-once/destroy-once of states, leaks, use-after-free, parser memory are not covered by any '
+             'contract here. add_union not extracted.',
+        technique='CBMC code contracts on C lowered from the real C++ per run',
+    ),
+    'C04': dict(
+        category='proof',
+        text='Slice: the three-valued predicate algebra (operator!, &&, || of pred_result) lowered per run from pred_result.hh; '
+             'contracts over all 3 / 3x3 values and client lemmas from the contract of ! alone: ?X and !X never both hold, exactly '
+             'one holds unless X fails, neither holds when X fails, double negation is the identity.',
+        design_ref='DESIGN.md section 4 C04',
+        note='SLICE ONLY: that assertions and sub-expression contexts leave the incoming stack unchanged (op_assert, pred_subx_any, '
+             'op_subx) is not covered.',
+        technique='CBMC code contracts on C lowered from the real C++ per run',
+    ),
 }
 
 NOT_APPLICABLE = {
